@@ -1061,6 +1061,7 @@ class C17:
         from . import srcdict
         widths = sorted(set((14, 15, 16, 17, 19, 20, 21, 22, 30)) | set(v + d for v in srcdict.load()["ints"] if 4 <= v <= 80 for d in (-2, -1, 0, 1)))
         wide = [b"0" * z + d for z in widths for d in (b"5", b"+5", b"a", b"+a", b"x", b"120", b"288")] + \
+               [sg + b"0" * z + d for z in widths for sg in (b"+", b"-") for d in (b"5", b"a", b"120", b"288", b"200")] + \
                [b"0" * z + b"+" + b"0" * (15 - t) + b"a" * t for z in (1, 2, 5) for t in (1, 2)] + [b"0+00000000000000a", b"00+0000000000000a", b"0+000000000000005"] + \
                [b"0" * z + b"+" + b"0" * 12 + b"120" for z in (1, 2, 3, 9)] + [b"0" * z + b"120" for z in (13, 14, 15, 20, 29)] + [b"0" * z + b"288" for z in (17, 18, 19, 20, 25)] + \
                [b"0" * z + b"+" + b"0" * 12 + b"288" for z in (1, 4)]
